@@ -10,7 +10,7 @@ RULE = ("files generated from the conventional grammar (Grammar.v / DESIGN.md 5.
         "distinct by rendered bytes")
 
 def gen(rng, tier):
-    n = 2100 if tier == "quick" else 60000
+    n = 4200 if tier == "quick" else 60000
     asts = []
     for _ in range(n):
         dl = rng.choice(grammar.DELIMS); cm = rng.choice(grammar.COMMENTS)
